@@ -146,12 +146,13 @@ def run_matrix(tier, seed, report):
                     ok, det = False, dict(raised=repr(e))
                 n_eval += 1
                 report("matrix/cache/after-{}/pw={}".format(fault, pw), ok, det)
-            # other lists of the same shape must not share the entry
-            other = (elems[1:11], elems[3:15])
-            with quiet():
-                d = SLc.bilform_matrix(*other)
-            n_eval += 1
-            report("matrix/cache/other-lists-same-shape/pw={}".format(pw), same(d, pairwise(SL0, *other)), {})
+            # other lists of the same shape must not share the entry (both lists differ / only trial differs / only test differs)
+            for tag, other in (("both-differ", (elems[1:11], elems[4:16])), ("same-test-other-trial", (te, elems[4:16])),
+                               ("other-test-same-trial", (elems[1:11], tr)), ("swapped-roles", (tr[:10], te + te[:2]))):
+                with quiet():
+                    d = SLc.bilform_matrix(*other)
+                n_eval += 1
+                report("matrix/cache/other-lists-same-shape/{}/pw={}".format(tag, pw), same(d, pairwise(SL0, *other)), {})
             with quiet():
                 d2 = SLc.bilform_matrix(te, tr)
             report("matrix/cache/first-lists-again/pw={}".format(pw), same(d2, refs[name]), {})
